@@ -586,6 +586,11 @@ func (w *c16World) apply(idx int, o c16Op) {
 		}
 		time.Sleep(200 * time.Microsecond)
 	}
+	// the hub removes a connection from its table first and from its rooms right after: one more
+	// trip through the loop makes sure the iteration that unregistered it has finished
+	if !w.barrier(what) {
+		return
+	}
 	w.resolve()
 	w.invariants(what)
 }
